@@ -27,6 +27,12 @@ func IsTruthy(val any) bool {
 		return rv.Uint() != 0
 	case reflect.Float32, reflect.Float64:
 		return rv.Float() != 0
+	case reflect.Bool:
+		// a named bool type (type Flag bool)
+		return rv.Bool()
+	case reflect.String:
+		// a named string type: empty and "false" are falsey like for string itself
+		return rv.String() != "" && rv.String() != "false"
 	}
 	return true
 }
